@@ -384,12 +384,13 @@ namespace LR
     thread's INPUT), preceded by `reset_cache()`. Program counter = position in the event order:
       0 acqP 1 cclear 2 mclear 3 relP                       reset_cache core.py:1031-1037
       4 acqR                                                 core.py:5691
-      5 mget aT            hit: return it (→ 14)             core.py:5695-5698
-      6 mset aF seed  7 mset aT seed                         core.py:5704-5711
-      8 mset aT body  9 mset aF body                         core.py:5733, 5737 (first round: match got better)
-      10 mget aT           KeyError escapes if absent        core.py:5725 (second round: not better)
-      11 mset aF r  12 mdel aF  13 mdel aT                   core.py:5725-5726
-      14 relR → done r                                       core.py:5727 -/
+      5 mget aT            hit: return it (→ 15)             core.py:5695-5698
+      6 mset aF seed                                         core.py:5704
+      7 mget aF  8 mset aT (that)                            core.py:5711 `memo[act_key] = memo[peek_key]`
+      9 mset aT body  10 mset aF body                        core.py:5733, 5737 (first round: match got better)
+      11 mget aT           KeyError escapes if absent        core.py:5725 (second round: not better)
+      12 mset aF r  13 mdel aF  14 mdel aT                   core.py:5725-5726
+      15 relR → done r                                       core.py:5727 -/
 structure LThread where
   inp : Nat
   pc : Nat := 0
@@ -398,8 +399,8 @@ structure LThread where
   keyError : Bool := false
   deriving Repr, Inhabited, DecidableEq
 
-def aT : MKey := ⟨0, 0, true⟩
-def aF : MKey := ⟨0, 0, false⟩
+def aT : MKey := ⟨0, 1, true⟩
+def aF : MKey := ⟨0, 1, false⟩
 def seed : Val := 0
 def bodyVal (inp : Nat) : Val := inp + 1
 
@@ -409,24 +410,26 @@ def nextEv (sh : Shared) (th : LThread) : Option Ev :=
   | 0 => some .acqP | 1 => some .cclear | 2 => some .mclear | 3 => some .relP
   | 4 => some .acqR
   | 5 => some (.mget aT (sh.memo.lookup aT))
-  | 6 => some (.mset aF seed) | 7 => some (.mset aT seed)
-  | 8 => some (.mset aT (bodyVal th.inp)) | 9 => some (.mset aF (bodyVal th.inp))
-  | 10 => some (.mget aT (sh.memo.lookup aT))
-  | 11 => some (.mset aF th.reg) | 12 => some (.mdel aF) | 13 => some (.mdel aT)
-  | 14 => some .relR
+  | 6 => some (.mset aF seed)
+  | 7 => some (.mget aF (sh.memo.lookup aF))
+  | 8 => some (.mset aT th.reg)
+  | 9 => some (.mset aT (bodyVal th.inp)) | 10 => some (.mset aF (bodyVal th.inp))
+  | 11 => some (.mget aT (sh.memo.lookup aT))
+  | 12 => some (.mset aF th.reg) | 13 => some (.mdel aF) | 14 => some (.mdel aT)
+  | 15 => some .relR
   | _ => none
 
 def advance (th : LThread) : Ev → LThread
   | .mget _ r =>
       if th.pc = 5 then
         match r with
-        | some v => { th with pc := 14, reg := v }
+        | some v => { th with pc := 15, reg := v }
         | none => { th with pc := 6 }
       else
         match r with
-        | some v => { th with pc := 11, reg := v }
+        | some v => { th with pc := th.pc + 1, reg := v }
         | none => { th with keyError := true }     -- KeyError propagates; `with` releases recursion_lock
-  | .relR => { th with pc := 15, result := some th.reg }
+  | .relR => { th with pc := 16, result := some th.reg }
   | _ => { th with pc := th.pc + 1 }
 
 structure LState where
